@@ -56,6 +56,8 @@ func mkMsg(sc scenario, w int) interface{} {
 		return bytes.NewBuffer(b)
 	case "stringsreader":
 		return strings.NewReader(string(b))
+	case "bytesreader":
+		return bytes.NewReader(b)
 	case "reader-small", "reader-large":
 		return onlyReader{bytes.NewReader(b)}
 	case "string":
@@ -137,7 +139,7 @@ func check(sc scenario, stream []byte, picks []int, meta *hx.Meta) (interleaved 
 			sig := "single-write-interleaved"
 			what := fmt.Sprintf("bytes of one %s message (%d bytes, pipeline %s, %s channel) are not contiguous on the wire", sc.Kind, sc.Size, sc.Pipe, map[bool]string{true: "async", false: "sync"}[sc.Async > 0])
 			if low >= 2 {
-				sig = "multi-write-message"
+				sig = "multi-write-message:" + sc.Kind + ":" + sc.Pipe
 				what += fmt.Sprintf(" (the message is %d low-level writes)", low)
 			}
 			meta.Violate(hx.Violation{Property: "C09", What: what, Signature: sig, Replay: rep})
@@ -152,7 +154,7 @@ func main() {
 	devnull, _ := os.OpenFile(os.DevNull, os.O_WRONLY, 0)
 	os.Stderr = devnull
 	rng := hx.NewRng(args.Seed)
-	meta.Rule = "2-3 goroutines calling Channel.Write concurrently under the hook scheduler; message types []byte, [][]byte, *bytes.Buffer, strings.Reader, io.Reader below / above the 1024-byte chunk, string through delimiter+text codecs, []byte through a length-field codec; sync and async channels; random and sticky schedules; non-trivial = the schedule switched goroutines while a message was being written; distinct = distinct (scenario, schedule)"
+	meta.Rule = "2-3 goroutines calling Channel.Write concurrently under the hook scheduler; message types []byte, [][]byte, *bytes.Buffer, strings.Reader, bytes.Reader (sizes 2..5000, across the 1024-byte streaming chunk), io.Reader below / above the chunk, string through delimiter+text codecs, []byte through a length-field codec; sync and async channels; random and sticky schedules; non-trivial = the schedule switched goroutines while a message was being written; distinct = distinct (scenario, schedule)"
 	if args.Replay != "" {
 		var rp struct {
 			Scenario scenario `json:"scenario"`
@@ -212,11 +214,14 @@ func main() {
 		}
 	}
 	n := hx.Pick3(args.Tier, 1200, 40000, 20000)
-	kinds := []string{"bytes", "vec", "buffer", "stringsreader", "reader-small", "bytes", "vec"}
+	kinds := []string{"bytes", "vec", "buffer", "stringsreader", "bytesreader", "reader-small", "bytes", "vec"}
 	for i := 0; i < n; i++ {
 		sc := scenario{Pipe: []string{"none", "none", "lenfield"}[rng.Intn(3)], N: 2 + rng.Intn(2), Async: []int{0, 1, 2, 8}[rng.Intn(4)]}
 		sc.Kind = kinds[rng.Intn(len(kinds))]
-		sc.Size = []int{2, 10, 1000, 1024}[rng.Intn(4)]
+		sc.Size = []int{2, 10, 1000, 1024, 1025, 2500, 5000}[rng.Intn(7)]
+		if sc.Kind == "reader-small" && sc.Size > 1024 {
+			sc.Size = 1024 // above the streaming chunk an io.Reader is the known finding (reader-large below)
+		}
 		if sc.Pipe == "lenfield" {
 			sc.Kind = []string{"bytes", "buffer", "stringsreader"}[rng.Intn(3)]
 		}
